@@ -240,3 +240,61 @@ def check_subsystem_protocol(ctx, rule, construct, calls, classes=None, rel=""):
             break
         else:
             rep.ok(rule, construct, f"subsystem.{m}({len(call.args)} positional{', ' + ','.join(k.arg or '**' for k in call.keywords) if call.keywords else ''}) provided by {', '.join(classes)}")
+
+
+# ------------------------------------------------------------------ point-argument agreement
+POINT_METHODS = {"r_OP", "r_OP_t", "r_OP_q", "v_P", "v_P_q", "a_P", "a_P_q", "a_P_u", "J_P", "J_P_q", "kappa_P", "kappa_P_q", "kappa_P_u"}
+
+
+def point_argument_agreement(ctx, rule, owners, ref_class="RigidBody"):
+    """owners: [(construct label, rel, ast node)].  Inside one owner every call of the subsystem point protocol on the same
+    receiver (r_OP, v_P, a_P, J_P and their derivatives) must name the same material point, i.e. pass the same `xi` and the
+    same `B_r_CP`: force, energy, velocity and Jacobian of a force element / joint / contact belong to ONE point.
+    Call arguments are mapped to parameter names through the reference signature of the supported subsystems."""
+    rep = ctx.rep
+    model = ctx.model
+    ref = model.cls(ref_class)
+    n_groups = 0
+    for label, rel, node in owners:
+        groups = {}
+        for (recv, m, call) in subsystem_calls(node):
+            if m not in POINT_METHODS:
+                continue
+            # only the kinematic accessor table (lambdas stored on the object); methods such as `export` evaluate other points on purpose
+            lam = call
+            while lam is not None and not isinstance(lam, ast.Lambda):
+                lam = getattr(lam, "_parent", None)
+            if lam is None or not isinstance(getattr(lam, "_parent", None), ast.Assign):
+                continue
+            c, fn = model.find_method(ref, m)
+            if fn is None:
+                continue
+            params = [a.arg for a in fn.args.args][1:]
+            got = {}
+            for i, a in enumerate(call.args):
+                if i < len(params):
+                    got[params[i]] = norm_src(a)
+            for k in call.keywords:
+                if k.arg:
+                    got[k.arg] = norm_src(k.value)
+            groups.setdefault(recv, []).append((m, call, got.get("xi"), got.get("B_r_CP")))
+        for recv, lst in sorted(groups.items()):
+            if len(lst) < 2:
+                continue
+            n_groups += 1
+            C = f"{rel}:{label}"
+            for key, idx in (("xi", 2), ("B_r_CP", 3)):
+                vals = {}
+                for item in lst:
+                    vals.setdefault(item[idx], []).append(item)
+                if len(vals) == 1:
+                    rep.ok(rule, C, f"{len(lst)} point-protocol calls on `{recv}` all pass {key}={list(vals)[0]}")
+                    continue
+                major = max(vals.items(), key=lambda kv: len(kv[1]))[0]
+                for v, items in vals.items():
+                    if v == major:
+                        continue
+                    for (m, call, _, _) in items:
+                        rep.bad(rule, C, call, f"`{recv}.{m}` is evaluated with {key}={v} while the other {len(vals[major])} point-protocol calls of this element use "
+                                f"{key}={major}: position/energy, velocity and force direction no longer refer to the same material point", f"{rel}:{call.lineno}")
+    return n_groups
